@@ -19,6 +19,7 @@ import (
 	"os"
 	"sort"
 	"strings"
+	"sync"
 
 	"verifharness/core"
 )
@@ -374,10 +375,17 @@ func init() {
 			fmt.Fprintln(os.Stderr, err)
 			return 2
 		}
+		// the LTS is read-only from here on: one goroutine per SUT
+		var wg sync.WaitGroup
 		for _, name := range strings.Split(*suts, ",") {
-			rep := walkLTS(name, core.New(name), l, *seed, *walks, *depth, *maxm)
-			core.WriteJSON(*out+"."+name+".walk.json", rep)
+			wg.Add(1)
+			go func(name string) {
+				defer wg.Done()
+				rep := walkLTS(name, core.New(name), l, *seed, *walks, *depth, *maxm)
+				core.WriteJSON(*out+"."+name+".walk.json", rep)
+			}(name)
 		}
+		wg.Wait()
 		return 0
 	})
 }
